@@ -569,6 +569,9 @@ def flag_locals(f):
         rv = s["rv"]
         if f.locals[l] == "bool" and rv["k"] == "use" and rv["o"]["k"] == "const" and rv["o"].get("v") in ("true", "false"):
             assigns.setdefault(l, {})[b] = 1 if rv["o"]["v"] == "true" else 0
+        elif f.locals[l] == "bool" and rv["k"] == "use" and rv["o"]["k"] in ("copy", "move") and not rv["o"]["p"].get("p") and f.locals[rv["o"]["p"]["l"]] == "bool":
+            # alias of another flag (e.g. the return slot of an inlined predicate helper)
+            assigns.setdefault(l, {})[b] = ("alias", rv["o"]["p"]["l"])
         else:
             bad.add(l)
     for b, t in f.calls():
@@ -579,7 +582,12 @@ def flag_locals(f):
         t = f.blocks[b]["t"]
         if t["k"] == "switch" and op_local(t["d"]) is not None:
             used.add(op_local(t["d"]))
-    out = {l: m for l, m in assigns.items() if l not in bad and l in used and l > f.argc}
+    def ok(l, seen=()):
+        if l in bad or l not in assigns or l <= f.argc or l in seen:
+            return False
+        return all(not isinstance(v, tuple) or ok(v[1], seen + (l,)) for v in assigns[l].values())
+    aliased = {v[1] for m in assigns.values() for v in m.values() if isinstance(v, tuple)}
+    out = {l: m for l, m in assigns.items() if ok(l) and (l in used or l in aliased)}
     _FLAG_CACHE[id(f)] = out
     return out
 
@@ -604,8 +612,14 @@ def reachable_fs(f, starts, removed_edges=()):
         out.add(b)
         d = dict(st)
         for l, m in flags.items():
-            if b in m:
+            if b in m and not isinstance(m[b], tuple):
                 d[l] = m[b]
+        for l, m in flags.items():
+            if b in m and isinstance(m[b], tuple):
+                if m[b][1] in d:
+                    d[l] = d[m[b][1]]
+                else:
+                    d.pop(l, None)
         t = f.blocks[b]["t"]
         succs = f.succs()[b]
         if t["k"] == "switch":
